@@ -134,7 +134,7 @@ claim("C19",
       "Decides over all estimator classes: no constructor-parameter write in fit, fit returns self, no history-dependent "
       "existence test / read influencing fit, predict-type methods write no state, no one-shot latch reachable from fit, "
       "reload completeness of every Moment, no un-copied estimator fit, no unpicklable value in stored state."
-      " Also: in-place mutation of containers not created by the current fit, reload independence of the moments, constructors storing their parameters, no fit of a shallow copy.",
+      " Also: in-place mutation of containers not created by the current fit, reload independence of the moments, constructors storing their parameters, no fit of a shallow copy; the adversarial back-end constructors seed their library before building the networks and use earlier-fit estimator state only under warm_start.",
       "Not decided: bit-equality of refitted models; determinism of wrapped estimators.",
       "life-cycle effect analysis over the event stream (D-LIFE)", "DESIGN.md §4 C19")
 claim("C20",
